@@ -360,3 +360,35 @@ add("C07",
     "The cached entry point of the generation-checking flavour is covered by C05_verifying_transparent_subscriptions + the any-world theorems. Static specification graph "
     "in the registry model. Observed and proved (C07_provKeys_order): under one required part the provided keys are visited most specific first.",
     "Lean 4 proof (walk = ordered concatenation; membership, multiplicity and order over all histories) + differential correspondence + flat-multiset oracle", "6/C07")
+
+add("C19",
+    "Theorems over ALL declaration histories with super queries (ZI/Props/C19Hist.lean, on ZI.Classes2 with the per-class _super_cache): C19_super — for every "
+    "well-formed history, every instance ob and every class C, `I in providedBy(super(C, ob)).__sro__` holds exactly when some class strictly AFTER C in the MRO of "
+    "type(ob) implements I (the statement's own recursion Impl), so never because of C itself, an earlier class, or ob's own direct declaration (C19_super_excludes); "
+    "cache hit and miss alike, earlier super queries allowed. C19_remainder_split (the MRO is a valid linearization, C3; the remainder contains neither C nor anything "
+    "before it). C19_stable (the specification returned once keeps following LATER declaration changes on the remaining classes). C19_reuse_iff (the identical object is "
+    "returned again exactly as long as no class declaration touched type(ob) or a class it still inherits from — changed_reaches_iff: that is exactly the set "
+    "Implements.changed() runs on). sim19_step / sim19_run: the cache invariant along every history. C19_mro_remainder, C19_cache_hit_same, C03_ro_eq_c3 (the model's "
+    "MRO is C3, tied to real __mro__ by the correspondence). The integrated World model (superSpec, registrations keyed on proxy specifications, adaptation passing ob "
+    "itself) is compared with both twins on class DAGs with diamonds and mixins and declaration histories before and after the first super query; the driver runs the "
+    "proved model and the abstract state in lock step and flags any disagreement on a super query inside the theorem's guards; every query involving a proxy is judged on "
+    "the real objects against the union of implementedBy(D) for D after C in type(ob).__mro__.",
+    "Guards of C19_super: C01's per-operation well-formedness (incl. G-nodup), the instance exists, fuel >= number of classes; interface re-basing and a class "
+    "specification among the declared ones are outside (evidence: super queries inside / outside the guards). Not modelled: the inherit / declared attributes copied "
+    "onto the synthesized Implements.",
+    "Lean 4 proof (simulation over all histories with super queries; cache invariant; reuse iff untouched) + differential correspondence with a lock-step proved model + MRO-remainder oracle", "6/C19")
+add("C13",
+    "Theorems: C13_implements (after ANY history of specification-creating and declaration calls — inherited, implementer, classImplementsFirst, the *only* forms, "
+    "repeated in any order — the live specification of every class reduces to implementedBy(<that class>), so unpickling returns the identical object), inv_run / "
+    "inv_step, C13_pinned_violates (kernel-checked: the pinned code reduced *only*-declared classes to implementedBy(None)), C13_names_only (a reduction can only carry "
+    "global names and references). INSTANCE DECLARATIONS over all declaration histories (ZI/Props/C13Hist.lean, on ZI.Classes2): C13_unpickle_same / "
+    "C13_provides_same — `Provides(cls, *args)` called again with the arguments `__reduce__` returns yields a declaration that reports exactly Up(args not implied by "
+    "the class now) + Impl(cls); when the class declarations are settled with respect to those arguments (G-settled) that is exactly what the live declaration "
+    "reports; C13_provides_identical — while the object holds its declaration and the history since stayed settled after every step (Quiet), the factory returns the "
+    "IDENTICAL live object without allocating. Both guards are shown necessary by kernel-checked counterexample histories (hS: a redundant argument whose redundancy "
+    "later disappears; hN: a stale cache entry replaced in between). The reductions of class specifications and instance declarations are compared with the model; "
+    "every round trip (interfaces, class specifications, instance and class provides-declarations, carrying objects, providedBy results, the empty declaration) is "
+    "executed under protocols 0-5 on both twins in a generated importable module and judged for identity / same interfaces / equality / absence of definition text "
+    "in the pickle bytes.",
+    "Guard G-settled (see above; the check's generator respects it). Known finding classprovides-unpickle-not-equal. CPython's pickle machinery is modelled, not verified.",
+    "Lean 4 proof (history invariants of the pickling state and of the shared Provides cache) + reduction correspondence + exhaustive-protocol round-trip oracle", "6/C13")
